@@ -229,4 +229,23 @@ theorem addProps_lookup_isSome : ∀ (kvs : List (Key × Json)) (ps : List (Key 
     · have hk' : (k == k1) = false := by simpa using hk
       simp only [hk', Bool.false_eq_true, if_false, keys, List.map_cons, List.contains_cons, Bool.false_or]
 
+/-! ### flat objects of strings (CSV header/row pairs): validity does not look at what the strings are -/
+
+theorem validProps_flat_str (ps : List (Key × Node)) (hs : List Key) (f g : Key → List Char) :
+    validProps ps (hs.map (fun h => (h, Json.str (f h)))) = validProps ps (hs.map (fun h => (h, Json.str (g h)))) := by
+  induction hs with
+  | nil => rfl
+  | cons h hs ih =>
+    simp only [List.map_cons, validProps, ih]
+    cases ps.lookup h <;> simp [validL]
+
+theorem keys_flat_str (hs : List Key) (f : Key → List Char) : keys (hs.map (fun h => (h, Json.str (f h)))) = hs := by
+  induction hs with
+  | nil => rfl
+  | cons h hs ih => simp only [keys, List.map_cons] at ih ⊢; rw [ih]
+
+theorem valid_flat_str (n : Node) (hs : List Key) (f g : Key → List Char) :
+    validL n (.obj (hs.map (fun h => (h, Json.str (f h))))) = validL n (.obj (hs.map (fun h => (h, Json.str (g h))))) := by
+  simp only [validL, validProps_flat_str n.props hs f g, keys_flat_str]
+
 end Dcg.Proofs.Infer
